@@ -69,7 +69,10 @@ ReachFrom(S, frontier, seen) ==
   LET next == {it.loc : it \in UNION {{x \in Items(FileNamed(S, fn)) : x.k = "import" /\ "loc" \in DOMAIN x} : fn \in frontier}}
       new == {fn \in next : HasFile(S, fn)} \ seen
   IN IF new = {} THEN seen ELSE ReachFrom(S, new, seen \cup new)
-Reach(S) == ReachFrom(S, {S.start}, {S.start})
+\* a further inline schema of a WSDL is written as a file record of kind "inline" naming its WSDL as `parent`: it is part
+\* of that file (the concretiser splices it into wsdl:types), so it is reached with it
+InlineOf(S, names) == {f.name : f \in {g \in Files(S) : g.kind = "inline" /\ g.parent \in names}}
+Reach(S) == LET r == ReachFrom(S, {S.start}, {S.start}) IN ReachFrom(S, r \cup InlineOf(S, r), r \cup InlineOf(S, r))
 
 ---------------------------------------------------------------------------
 (* global components and what a QName denotes (symbol spaces: types, elements) *)
